@@ -132,6 +132,23 @@ def case_arith2(R: Runner, inp: dict[str, Any]) -> None:
                   {"quotient": d.value, "remainder": md.value})
         t = R.T("divided_by", "times: b | divided_by: b", cls=q, x=a, b=b)
         _num_ok(R, "divided_by", "undoes-times", t, ea, False, q)
+        # exact arithmetic knows values, not representations: writing an integral operand as
+        # a float (-7.0 for -7) may change the type of the result, not its value.  (divided_by
+        # is exempt: integer division for two integers is documented.)
+        if isinstance(na, int) and isinstance(nb, int) and abs(na) < 2**53 and abs(nb) < 2**53 \
+                and abs(na * nb) < 2**53 and abs(ea / eb) < 10**15:
+            cls2 = "negative-operand" if na < 0 or nb < 0 else "non-negative-operands"
+            for f, want in (("plus", ea + eb), ("minus", ea - eb), ("times", ea * eb), ("modulo", ea - eb * fl),
+                            ("at_least", max(ea, eb)), ("at_most", min(ea, eb))):
+                for xa, xb in ((float(na), nb), (na, float(nb))):
+                    r = R.both(f, xa, xb, cls=cls2)
+                    if r.kind == "foreign":
+                        continue
+                    ok = r.ok and isinstance(r.value, (int, float)) and not isinstance(r.value, bool) \
+                        and Fraction(r.value) == want
+                    R.law(f, "value-independent-of-int-or-float-spelling", ok, cls2,
+                          None if ok else {"call": [f, xa, xb], "with_ints": int(want) if want.denominator == 1 else str(want),
+                                           "got": r.brief()})
     else:
         want = ea / eb
         if _mixed_ok(na, nb, want):
@@ -159,8 +176,28 @@ def _is_extreme(v: Any, na: Any, nb: Any, pick: Any) -> bool:
 # ---------------------------------------------------------------------------
 
 
+WIDE_DIGITS = (0, 1, 2, 3, 10, 15, 16, 17, 18, 27, 28, 29, 30, 100, 308, 323, 324, 400, 10**9, 2**31, 2**64)
+WIDE_FLOATS = (3.25, 1.5, 2.675, 1.0e20, 1e22, 1e23, 1.7976931348623157e308, 5e-324, 2.2250738585072014e-308,
+               0.1, 0.30000000000000004, 123456789.12345679, 1e-7, 1e16, 9007199254740993.0, -2.5, -1e300, 0.0)
+
+
 def gen_arith1(rng: random.Random, i: int) -> dict[str, Any]:
     m = rng.random()
+    if rng.random() < 0.3:
+        # round on any finite float with any non-negative number of places
+        c = rng.random()
+        if c < 0.35:
+            xf = rng.choice(WIDE_FLOATS)
+        elif c < 0.7:
+            xf = rng.uniform(-10, 10) * 10.0 ** rng.randint(-30, 30)
+        elif c < 0.85:
+            xf = rng.uniform(-1, 1) * 10.0 ** rng.randint(-300, 300)
+        else:
+            xf = g_float(rng)
+        dg: Any = rng.choice(WIDE_DIGITS)
+        if rng.random() < 0.15:
+            dg = str(dg)
+        return {"mode": "roundwide", "x": xf, "digits": dg}
     if m < 0.3:
         x: Any = g_int(rng)
     elif m < 0.7:
@@ -184,6 +221,8 @@ def case_arith1(R: Runner, inp: dict[str, Any]) -> None:
     x, d = inp["x"], inp["digits"]
     if not numeric_string_in_domain(x) or isinstance(x, bool) or isinstance(d, bool):
         return
+    if inp["mode"] == "roundwide":
+        return _round_wide(R, x, d)
     n = to_number(x)
     e = exact(n)
     isf = isinstance(n, float)
@@ -221,6 +260,54 @@ def case_arith1(R: Runner, inp: dict[str, Any]) -> None:
     rr = R.T("round", "round: d | round: d", cls=q, x=x, d=digits)
     if r.ok and rr.ok and isinstance(r.value, (int, float)):
         R.law("round", "idempotent", rr.value == r.value, q, {"once": r.value, "twice": rr.value})
+
+
+def _round_wide(R: Runner, x: Any, d: Any) -> None:
+    """round on every finite float, for any non-negative number of decimal places (docs:
+    "Return the input number rounded to the given number of decimal places"): it is total,
+    stays within half a unit of the last kept place, leaves a number alone that has no more
+    decimals than requested, picks the nearer neighbour when there is no tie, and rounding
+    twice changes nothing."""
+    if not isinstance(x, float) or not math.isfinite(x):
+        return
+    try:
+        digits = int(d)
+    except (TypeError, ValueError):
+        return
+    if digits < 0:
+        return
+    q = ("places-over-28" if digits > 28 else "places-15-to-28" if digits >= 15 else "few-places") + \
+        (":large-magnitude" if abs(x) >= 2**53 else "")
+    r = R.both("round", x, d, cls=q)
+    if r.kind == "foreign":
+        return
+    if not R.law("round", "total-on-finite-floats", r.ok, q, {"x": x, "digits": digits, "got": r.brief()}):
+        return
+    v = r.value
+    if isinstance(v, bool) or not isinstance(v, (int, float)) or (isinstance(v, float) and not math.isfinite(v)):
+        R.law("round", "result-is-a-finite-number", False, q, {"x": x, "digits": digits, "got": v})
+        return
+    xb = Fraction(x)
+    half = Fraction(1, 2) / (Fraction(10) ** min(digits, 400))
+    R.law("round", "within-half-unit-of-last-place", abs(Fraction(v) - xb) <= half + Fraction(math.ulp(x)), q,
+          {"x": x, "digits": digits, "got": v})
+    if digits == 0:
+        R.law("round", "no-places-gives-an-integer", type(v) is int, q, {"x": x, "got": v})
+    dec = Decimal(repr(x))
+    if dec.as_tuple().exponent >= -digits or x == 0:
+        # nothing to round away
+        R.law("round", "unchanged-when-places-suffice", Fraction(v) == xb, q, {"x": x, "digits": digits, "got": v})
+    elif digits <= 400:
+        e = exact(x)
+        scaled = e * 10**digits
+        if scaled - math.floor(scaled) != Fraction(1, 2):
+            want = Fraction(math.floor(scaled + Fraction(1, 2)), 10**digits)
+            ok = (type(v) is int and v == want) if digits == 0 and abs(x) < 2**52 else \
+                (float_close(float(v), want) if want != 0 else abs(v) < 1e-300)
+            R.law("round", "nearest-with-given-decimals", ok, q, {"x": x, "digits": digits, "want": str(want), "got": v})
+    rr = R.T("round", "round: d | round: d", cls=q, x=x, d=d)
+    if rr.kind != "foreign":
+        R.law("round", "idempotent", rr.ok and rr.value == v, q, {"once": v, "twice": rr.brief()})
 
 
 # ---------------------------------------------------------------------------
